@@ -1143,10 +1143,11 @@ def _create_action_response(
             template_var = out_state_vars[key]
             template_var.validate_value(value)
             ET.SubElement(response_el, key).text = template_var.coerce_upnp(value)
+    # ET.tostring writes a carriage return as is, and an XML parser reads it as a line feed.
     return Response(
         content_type="text/xml",
         charset="utf-8",
-        body=ET.tostring(envelope_el, encoding="utf-8"),
+        body=ET.tostring(envelope_el, encoding="utf-8").replace(b"\r", b"&#13;"),
     )
 
 
